@@ -239,8 +239,9 @@ _C16S = [
     ("c16_set_pop1_evict_n2_l4", "set that must evict the only entry (3+2 > 4)"),
 ]
 PROPS["C16"] = dict(
-    level="model_checking",
+    level="proof",
     steps=[
+        dict(kind="verus", unit="c16_cache", code_functions=["get", "set"]),
         dict(kind="kani", crate="humphrey_server", module="in_server", tag="c16", jobs=8, harnesses=
              [H(n, "bounded", "Cache::get contract from an ARBITRARY well-formed cache of that shape (symbolic key, clock, entry ages, contents): "
                 "returns nothing, or exactly the entry stored under this (path, host) with its bytes and MIME type, not older than the time limit; changes nothing -- " + d,
@@ -249,15 +250,16 @@ PROPS["C16"] = dict(
                 "the item is retrievable immediately with exactly its bytes and MIME type, survivors keep their own data, eviction is oldest-first -- " + d,
                 bound="population and sizes as named", timeout=600) for n, d in _C16S]),
     ],
-    kani_functions=[dict(file="humphrey-server/src/server/cache.rs", item="Cache::get, Cache::set", engine="kani")],
+    kani_functions=[dict(file="humphrey-server/src/server/cache.rs", item="Cache::get, Cache::set (bounded cross-check on the compiled crate, std's real VecDeque)", engine="kani")],
     assumptions=[
-        "the clock is monotone (entry times are not in the future); SystemTime::now replaced by a ghost clock",
-        "RwLock gives set exclusive access (Rust typing); threads not explored",
-        "VecDeque capacity pre-sized in the harness so that std's ring-buffer growth is not part of the query",
+        "one clock reading per operation, not earlier than any stored cache_time (monotone clock): SystemTime::now/duration_since/as_secs are assumed (assume_specification) to return that reading",
+        "RwLock gives set exclusive access and get shared access (Rust typing: &mut self / &self); threads are not explored -- each operation is atomic with respect to the invariant because it holds the lock for its whole duration (static.rs call sites)",
+        "vstd's model of VecDeque (len, index, pop_front, remove, push_back) and the shims vf_iter / vf_position for `.iter().position(..)`; String == &str and From<&str> for String compare / keep the character sequence",
+        "precondition of set taken from its call sites: the item fits the limit (value.len() <= cache_limit) and cache_limit + value.len() does not wrap usize",
     ],
     not_covered=[
-        "Cache::set when an older entry SURVIVES (replace-in-place, partial eviction, insertion next to existing entries): CBMC does not finish on VecDeque::remove / push_back over heap entries even for one surviving entry (measured, 40 GB) -- so preservation of the invariant by set is decided only for stores into an empty cache and stores that evict everything, and the induction over histories is therefore NOT closed",
-        "set on populations of 2 (even when both entries are evicted: exit 6 / out of memory), get on populations above 2, item sizes above 4 bytes", "static.rs cache_check / inner_file_handler (format!-based logging, file system)", "concurrent access",
+        "static.rs cache_check / inner_file_handler: that handlers consult the cache under the right (path, host) key and store only items that fit (format!-based logging, file system)",
+        "interleavings of threads (delegated to RwLock)", "the Kani cross-check is limited to populations <= 2 and does not finish when an older entry survives a set (the Verus proof has no such bound)",
     ],
 )
 
